@@ -595,8 +595,10 @@ class StateScenario(Scenario):
                 return {"$tree": enc(tree), "as_config": rng.random() < 0.3}
             return {"$raw": enc(values.gen_value(rng, item, self._want(st, rng), st.ctx))}
 
-        if name == "imul" and schema.is_cfg_node(item):
-            name = "reverse"   # list *= n aliases the same configuration objects, as a built-in list would
+        if name == "imul" and (schema.is_cfg_node(item) or n > 24):
+            # list *= n aliases the same configuration objects, as a built-in list would; and repeated doubling over a long
+            # history makes lists of millions of items (one run then takes longer than the watchdog allows)
+            name = "reverse"
         op = {"op": "lop", "path": t.path, "name": name}
         if name == "append":
             op["v"] = one()
@@ -838,7 +840,11 @@ class StateScenario(Scenario):
                 elif UNSPEC in (ra, rb):
                     return path, UNSPEC
             if len(bad) == 1 and type(bad[0]) in (str, int, bool, tuple) and kf["kind"] != "bytes":
-                # (a binary key has a text form in documents and a bytes form in memory: which one the error shows is open)
+                # (a binary key has a text form in documents and a bytes form in memory: which one the error shows is open;
+                # likewise "the key" may be shown as given or as the key field normalises it: claimed when both read the same)
+                nk = ops.expect_loaded(kf, bad[0], st.ctx) if loaded else model.norm(kf, bad[0], st.ctx)
+                if isinstance(nk, OK) and str(nk.v) != str(bad[0]):
+                    return path, UNSPEC
                 return "%s[%s]" % (path, str(bad[0])), REJ
             # several offending entries (conversion and validation are separate passes, so which one is
             # reported first is not defined), or rejected as a whole by the field's own validator
@@ -1496,9 +1502,9 @@ class StateScenario(Scenario):
                     break
             # (in-place list operations are not among the routes whose exception type C15 fixes; when the rejection does
             # come as a validation error, the field it names must be the right one)
+            # in-place insertion is not one of C15's routes (assignment, constructor keyword, tree / document load): observed only
             if len(found) == 1 and not open_ and isinstance(err, ValidationError):
-                self.check_rejection(st, rec, err, found[0][0], found[0][1], route)
-                rec.probe("list-insertion-rejected:path-checked:" + name)
+                rec.probe("list-insertion-rejected:path-%s:%s" % ("as-expected" if getattr(err, "ref_path", None) == found[0][0] else "differs", name))
         if name in SINGLE_LIST_OPS:
             rec.relevant += 1
             if err is not None:
@@ -1573,8 +1579,8 @@ class StateScenario(Scenario):
             vf = node.get("vf") or {"kind": "any", "o": {}}
             rk, rv = model.norm(kf, k, st.ctx), model.norm(vf, v, st.ctx)
             if REJ in (rk, rv) and UNSPEC not in (rk, rv):
-                self.check_rejection(st, rec, err, "%s[%s]" % (path, str(k)), node, route)
-                rec.probe("dict-insertion-rejected:path-checked")
+                # (in-place insertion is not one of C15's routes: observed only)
+                rec.probe("dict-insertion-rejected:path-%s" % ("as-expected" if getattr(err, "ref_path", None) == "%s[%s]" % (path, str(k)) else "differs"))
         if name in SINGLE_DICT_OPS:
             rec.relevant += 1
             if err is not None:
